@@ -64,6 +64,8 @@ type Run struct {
 	exhaustive  bool
 	floorFails  []string
 	journalDir  string
+	folded      bool
+	caseSeed    int64
 }
 
 type violation struct {
@@ -134,8 +136,32 @@ func (r *Run) Stream(k int) int64 {
 	return s
 }
 
-// Rand returns the PRNG of case i: determined by (seed, property, label, i) only.
-func (r *Run) Rand(label string, i int) *rand.Rand { return RandFor(r.Seed, r.ID, label, i) }
+// Fold selects the exploration stream: after Fold(kq, kt) the PRNGs handed out by Rand depend on
+// VERIF_SEED mod kq (quick) or mod kt (thorough) only, so every seed value maps onto one of k fully
+// swept streams (DESIGN §1.3, for properties whose violation classes have a long tail).
+func (r *Run) Fold(kq, kt int) {
+	k := kq
+	if !r.Quick() {
+		k = kt
+	}
+	r.folded = true
+	r.caseSeed = r.Stream(k)
+	r.Extra("stream", r.caseSeed)
+	r.Extra("streams", k)
+}
+
+// CaseSeed is the seed cases are derived from (the folded stream number after Fold, else the seed).
+func (r *Run) CaseSeed() int64 {
+	if r.folded {
+		return r.caseSeed
+	}
+	return r.Seed
+}
+
+// Rand returns the PRNG of case i: determined by (case seed, property, tier, label, i) only.
+func (r *Run) Rand(label string, i int) *rand.Rand {
+	return RandFor(r.CaseSeed(), r.ID, r.Tier+"/"+label, i)
+}
 
 // RandFor derives a PRNG from its arguments.
 func RandFor(seed int64, id, label string, i int) *rand.Rand {
